@@ -43,7 +43,7 @@ TLin   == /\ Is("ret") /\ pend[Ev.t].st = "inv"
 
 TScanStart == Is("scan_start") /\ Step /\ ScanStart(Ev.s)
 
-TImage    == Is("image") /\ Step /\ Image(Ev.lossy, Ev.lock)
+TImage    == Is("image") /\ Step /\ Image(Ev.lossy, Ev.lock, Ev.failed)
 TReopened == Is("reopened") /\ Step /\ (Reopened(Ev) \/ OpenClean(Ev))
 TRestore  == Is("restore") /\ Step /\ Restore
 TContinue == Is("continue") /\ Step /\ Continue
